@@ -6,14 +6,18 @@ from props.C03 import edge_points, pent_seam_points
 
 ID = "C02"
 LEVEL = "other"
-MODULES = ["H3Proofs.Props.C02", "H3Proofs.Props.C02Hex"]
+MODULES = ["H3Proofs.Props.C02", "H3Proofs.Props.C02Hex", "H3Proofs.Props.C02Valid"]
 THEOREMS = "auto"
 TECHNIQUE = ("Lean 4 theorems for argument validation and the planar rounding logic + bit-exact correspondence of "
              "_hex2dToCoordIJK/_faceIjkToH3; the geometric containment clause is a differential run (not a proof)")
 ASSUMPTIONS = ["_geoToClosestFace / _geoToHex2d (acos, tan, atan2) are outside the model: the containment clause is "
                "evaluated on the real library exactly as the property words it (gnomonic chart centred on the "
                "returned cell, tolerance max(2e-12, 4e-15/cos lat)); this is bounded differential testing"]
-NOT_PROVED = ["containment of the point in the returned cell's boundary (gnomonic projection: transcendental floats)"]
+ASSUMPTIONS.append("whatever _faceIjkToH3 returns other than H3_NULL is PROVED to be a valid cell of the requested resolution "
+                   "(C02Valid.faceIjkToH3_valid, all face coordinates): the clause 'success yields a valid cell of that resolution' does "
+                   "not depend on the floating-point projection")
+NOT_PROVED = ["containment of the point in the returned cell's boundary (gnomonic projection: transcendental floats)",
+              "that latLngToCell succeeds for every finite input (that _geoToFaceIjk always lands within the lookup range)"]
 EXPLANATION = ("argument validation is a theorem; _hex2dToCoordIJK (Float instance of the generic code proved over "
                "exact arithmetic) and _faceIjkToH3 are compared bit-exactly with C; containment is evaluated on "
                "points 1e-1..1e-12 cell widths from cell edges/corners, along all icosahedron edges, around "
